@@ -1181,15 +1181,18 @@ class PendingClassDef(_PendingCompoundStmt[ClassDef]):
                 func=Name(id="setattr", ctx=Load()),
                 args=[
                     self.nsp.get_load_name(self.node.name),
-                    Name(id="k", ctx=Load()),
-                    Name(id="v", ctx=Load()),
+                    Name(id="__ol_k", ctx=Load()),
+                    Name(id="__ol_v", ctx=Load()),
                 ],
                 keywords=[],
             ),
             generators=[
                 comprehension(
                     target=Tuple(
-                        elts=[Name(id="k", ctx=Store()), Name(id="v", ctx=Store())],
+                        elts=[
+                            Name(id="__ol_k", ctx=Store()),
+                            Name(id="__ol_v", ctx=Store()),
+                        ],
                         ctx=Store(),
                     ),
                     iter=Call(
